@@ -3,6 +3,7 @@ package main
 import (
 	"encoding/json"
 	"fmt"
+	"os"
 	"path/filepath"
 	"reflect"
 	"runtime"
@@ -238,6 +239,9 @@ func (u *ExecUniverse) human(r CaseRef) string {
 // and let TLC judge the second observation too; only rejections confirmed
 // that way are reported.
 func (rc *RunCtx) execFamily(u *ExecUniverse, prefixes ...string) {
+	if also := os.Getenv("VERIF_ALSO"); also != "" { // developer aid: report another property's clauses too
+		prefixes = append(prefixes, strings.Split(also, ",")...)
+	}
 	t0 := time.Now()
 	rows, err := u.observeAll()
 	if err != nil {
